@@ -2329,3 +2329,37 @@ def cleanup_settles_pending(check: Check, repo: Repo, rule: str = "CLEANUP-SETTL
     path = cfg.find_path(cfg.entry, lambda nd: nd is cfg.exit, follow=no_exc, avoid=lambda nd: nd in nodes)
     check.ob(rule, calls[0], "_cleanup: _settle_pending() on every normal path", path is None,
              "must-pass-through" if path is None else "can be skipped: " + cfg.describe_path(path)[-180:])
+
+
+RESULT_VALUE_NAMES = {"result", "resolved", "item", "completed", "completed_item", "completed_value", "resolved_value", "coerced", "value"}
+
+
+def null_by_identity(check: Check, repo: Repo, rule: str = "NULL-BY-IDENTITY") -> None:
+    check.rule(
+        rule,
+        "whether a resolved value is 'null or undefined' is decided by identity (`is None`, `is Undefined`) in the "
+        "executor, never by truthiness: no variable that holds a resolver result or a completed value (result, resolved, "
+        "item, completed, coerced ...) is used as a bare condition (`if not resolved:`). 0, 0.0, False and '' are values: "
+        "a truthiness test in the awaitable twin of a completion function turns them into null only when the resolver was "
+        "asynchronous - the data then depends on the sync/async mix",
+    )
+    mod = repo.mod("execution.executor")
+    bad = []
+    n = 0
+    for node in ast.walk(mod.tree):
+        tests: list[ast.AST] = []
+        if isinstance(node, (ast.If, ast.While, ast.IfExp)):
+            tests = [node.test]
+        elif isinstance(node, ast.BoolOp):
+            tests = list(node.values)
+        elif isinstance(node, ast.UnaryOp) and isinstance(node.op, ast.Not):
+            tests = [node.operand]
+        for t in tests:
+            n += 1
+            if isinstance(t, ast.Name) and t.id in RESULT_VALUE_NAMES:
+                bad.append(t)
+    for t in bad:
+        check.ob(rule, t, f"{qualname_of(t)}: truthiness of `{t.id}`", False, f"`{t.id}` holds a resolved value: falsy values (0, False, '') are not null")
+    check.ob(rule, mod.tree, f"execution/executor.py: {n} conditions", not bad, "no result value is tested by truthiness" if not bad else "see above", nontrivial=False)
+    if n < 100:
+        raise AnalysisError("executor.py: conditions not found")
